@@ -87,7 +87,7 @@ def mulVec (a : LMat α) (v : List α) : List α := a.map fun row => dot row v
 def kron (a b : LMat α) : LMat α :=
   a.flatMap fun ra => b.map fun rb => ra.flatMap fun x => rb.map fun y => y * x
 
-def map {β} (f : α → β) (m : LMat α) : LMat β := List.map (List.map f) m
+def mapEntries {β} (f : α → β) (m : LMat α) : LMat β := List.map (List.map f) m
 
 end LMat
 end Q1t
